@@ -160,6 +160,8 @@ def _get_intervals_post(bin_type, thresholds, result):
         if thresholds is None or bin_type not in BIN_TABLE:
             return True
         ts = [float(t) for t in thresholds]
+        if any(t != t for t in ts):
+            return True     # a NaN threshold (e.g. automatic thresholds of an empty dataset) denotes no event
         ul, lc, uu, uc = BIN_TABLE[bin_type]
         n = len(ts) - 1 if (ul and uu) else len(ts)
         if len(result) != max(n, 0):
